@@ -117,6 +117,7 @@ func ontQuorumTemplate(c *core.Ctx, prop string, fn *ssa.Function, isKeys func(s
 }
 
 func runC24(c *core.Ctx) {
+	checkOntKeyHeightOrder(c, "C24.epoch-of-that-height")
 	checkKeyHeightBelow(c, "C24.tracked-set-of-that-height")
 	// ont
 	isParam := func(name string) func(ssa.Value) bool {
